@@ -217,7 +217,7 @@ class ProgramCheck(object):
                 in_loop = any(c in ('loop_body', 'loop_else', 'while_test', 'for_iter') for c in info['ctx_full'])
                 # (a) phantom alternatives: same-scope alternatives never delivered on any path
                 for k in keyset:
-                    if not no_fail or not isinstance(k, tuple) or not same_scope(k):
+                    if not no_fail or not isinstance(k, tuple) or not same_scope(k) or name in declared_anywhere:
                         continue
                     self.stat('C03_alternatives_checked')
                     if k not in self.sites_any(rid):
